@@ -677,6 +677,15 @@ func Route(w *load.World, c *core.Collector) {
 			}
 		}
 		if route == nil {
+			// "if forwarded, err := c.forwardIfRemote(name, args, reply); forwarded { return err }"
+			if probs, at, ok := routeThroughHelper(w, m); ok {
+				if len(probs) > 0 {
+					c.Add("ROUTE", key, core.Violation, at, strings.Join(probs, "; "), "C17")
+				} else {
+					c.Add("ROUTE", key, core.OK, at, "", "C17")
+				}
+				continue
+			}
 			c.Add("ROUTE", key, core.Violation, w.Position(m.Pos()), "RPC handler never forwards to the destination server", "C17")
 			continue
 		}
@@ -4828,6 +4837,156 @@ func isShardRegistry(v ssa.Value) bool {
 
 // shardRegistryRow: the struct field that holds the registry and the mutex field next to it, as
 // "pkg.Type.field" names; empty when not found.
+// destGuard: the branch of fn that compares the request's destination with this node's name, and
+// the successor taken when they differ.
+func destGuard(fn *ssa.Function) (*ssa.BasicBlock, int) {
+	for _, b := range fn.Blocks {
+		ifi, ok := b.Instrs[len(b.Instrs)-1].(*ssa.If)
+		if !ok {
+			continue
+		}
+		bo, neg, ok := condBinOp(ifi.Cond, 0)
+		if !ok || (bo.Op != token.NEQ && bo.Op != token.EQL) {
+			continue
+		}
+		ox, oy := ssax.Prov(bo.X), ssax.Prov(bo.Y)
+		isDest := func(o ssax.Origins) bool {
+			if o["field:Dest"] {
+				return true
+			}
+			for k := range o {
+				if strings.HasSuffix(k, ".Destination") || strings.HasSuffix(k, "Destination") {
+					return true
+				}
+			}
+			return false
+		}
+		if (isDest(ox) && oy["field:MyHostname"]) || (isDest(oy) && ox["field:MyHostname"]) {
+			remote := 0
+			if (bo.Op == token.EQL) != neg {
+				remote = 1
+			}
+			return b, remote
+		}
+	}
+	return nil, 0
+}
+
+// routeThroughHelper: the handler m hands its own name, arguments and reply to a helper that
+// forwards them when the destination is another node and says whether it did; the handler returns
+// on "forwarded" and acts locally only otherwise. The problems found, where, and whether the
+// form was recognised at all.
+func routeThroughHelper(w *load.World, m *ssa.Function) (probs []string, at string, ok bool) {
+	for _, b := range m.Blocks {
+		for _, in := range b.Instrs {
+			call, isCall := in.(*ssa.Call)
+			if !isCall {
+				continue
+			}
+			h := call.Call.StaticCallee()
+			if h == nil || load.PkgPath(h) != clusterPkg || len(h.Blocks) == 0 || h.Signature.Results().Len() != 2 {
+				continue
+			}
+			var route *ssa.Call
+			for _, hb := range h.Blocks {
+				for _, hi := range hb.Instrs {
+					if rc, isRc := hi.(*ssa.Call); isRc {
+						if g := rc.Call.StaticCallee(); g != nil && g.Name() == "internalRoute" {
+							route = rc
+						}
+					}
+				}
+			}
+			if route == nil {
+				continue
+			}
+			at = w.At(in)
+			ok = true
+			// inside the helper
+			gb, remote := destGuard(h)
+			if gb == nil || !ssax.OnlyViaEdge(gb, remote, route.Block()) {
+				probs = append(probs, "forwarding (in "+h.Name()+") is not guarded by Dest != MyHostname")
+				return
+			}
+			pidx := func(v ssa.Value) int {
+				for i, q := range h.Params {
+					if v == ssa.Value(q) || ssax.Prov(v)["param:"+q.Name()] {
+						return i
+					}
+				}
+				return -1
+			}
+			ni, ai, ri := pidx(route.Call.Args[1]), pidx(route.Call.Args[2]), pidx(route.Call.Args[3])
+			if ni < 0 || ai < 0 || ri < 0 {
+				probs = append(probs, h.Name()+" does not forward what it was handed")
+				return
+			}
+			for _, hb := range h.Blocks {
+				r, isRet := hb.Instrs[len(hb.Instrs)-1].(*ssa.Return)
+				if !isRet || hb == h.Recover || len(r.Results) != 2 {
+					continue
+				}
+				fv, isC := ssax.ConstBool(ssax.ReturnOperand(r, 0))
+				switch {
+				case !isC:
+					probs = append(probs, h.Name()+" does not say plainly whether it forwarded")
+				case fv && !ssax.OnlyViaEdge(gb, remote, hb):
+					probs = append(probs, h.Name()+" can say it forwarded for a request addressed to this node")
+				case !fv && !ssax.OnlyViaEdge(gb, 1-remote, hb):
+					probs = append(probs, h.Name()+" can say it did not forward for a request addressed to another node")
+				}
+			}
+			// at the call
+			if name, _ := ssax.ConstString(call.Call.Args[ni]); name != "ClusterNode."+m.Name() {
+				probs = append(probs, fmt.Sprintf("forwards to %q instead of itself", name))
+			}
+			if !ssax.Prov(call.Call.Args[ai])["param:"+m.Params[1].Name()] || !ssax.Prov(call.Call.Args[ri])["param:"+m.Params[2].Name()] {
+				probs = append(probs, "does not forward its own arguments and reply")
+			}
+			// the branch on "forwarded"
+			var fb *ssa.BasicBlock
+			fwdEdge := 0
+			for _, tb := range m.Blocks {
+				ifi, isIf := tb.Instrs[len(tb.Instrs)-1].(*ssa.If)
+				if !isIf {
+					continue
+				}
+				cond, e := ifi.Cond, 0
+				if un, isNot := cond.(*ssa.UnOp); isNot && un.Op == token.NOT {
+					cond, e = un.X, 1
+				}
+				if ex, isEx := cond.(*ssa.Extract); isEx && ex.Tuple == ssa.Value(call) && ex.Index == 0 {
+					fb, fwdEdge = tb, e
+				}
+			}
+			if fb == nil {
+				probs = append(probs, "the handler does not branch on whether the request was forwarded")
+				return
+			}
+			for _, lb := range m.Blocks {
+				for _, li := range lb.Instrs {
+					lc, isLc := li.(*ssa.Call)
+					if !isLc {
+						continue
+					}
+					local := false
+					if lc.Call.IsInvoke() && ssax.TypeName(lc.Call.Value.Type()) == "diskstore.DiskStore" {
+						local = true
+					}
+					if g := lc.Call.StaticCallee(); g != nil && (strings.Contains(g.String(), "ShardManager)") || strings.HasPrefix(g.String(), "os.")) {
+						local = true
+					}
+					if local && !ssax.OnlyViaEdge(fb, 1-fwdEdge, lb) {
+						probs = append(probs, "local effect at "+w.At(li)+" is not confined to the destination server")
+					}
+				}
+			}
+			return
+		}
+	}
+	return nil, "", false
+}
+
 func anyLeafOther(w *load.World, vs []ssa.Value) bool {
 	for _, v := range vs {
 		if destLeaf(w, v, 0) == leafOther {
